@@ -43,6 +43,16 @@ def main():
                     break
                 if c != prop:
                     break     # other properties: quick tier only
+        if not any(v["rules"] for v in caught.values()):
+            # nothing reported in the default configuration: the other properties' thorough tier (all six configurations)
+            for c in order[1:]:
+                if c not in checks:
+                    continue
+                out = sh("cd %s && ./check %s --tier thorough" % (VERIF, c), env=env).stdout
+                rules = sorted(set(re.findall(r"rule=(\S+)", out)))
+                if rules:
+                    caught[c] = {"tier": "thorough", "rules": rules, "analysis_broken": False}
+                    break
         sh("git -C %s checkout -- ." % W)
         readme = ""
         try:
